@@ -10,6 +10,7 @@
 package props
 
 import (
+	"bytes"
 	"encoding/binary"
 	"encoding/json"
 	"flag"
@@ -189,6 +190,7 @@ func (s *Stats) Note(format string, a ...any) {
 
 // Write stores the statistics and the hash set of non-trivial cases.
 func (s *Stats) Write() {
+	jr.close()
 	s.mu.Lock()
 	defer s.mu.Unlock()
 	s.WallS = time.Since(s.start).Seconds()
@@ -248,7 +250,9 @@ func fail(t fataler, prop, check string, c any, format string, a ...any) {
 // journal records the case that is about to run, so that the driver can name
 // the input when the process dies from a background goroutine.
 type journal struct {
-	f *os.File
+	f    *os.File
+	n    int
+	open bool
 }
 
 var jr = func() *journal {
@@ -266,13 +270,24 @@ func (j *journal) begin(prop, check string, c any) {
 	}
 	raw, _ := json.Marshal(c)
 	b, _ := json.Marshal(Failure{Property: prop, Check: check, Case: raw, Message: "process died while this case was running", Seed: seed(), Tier: tier()})
-	b = append(b, '\n')
+	// one write: the record, padded with blanks so that a shorter record
+	// overwrites a longer one completely (no truncate system call per case)
+	n := len(b)
+	if n < j.n {
+		b = append(b, bytes.Repeat([]byte{' '}, j.n-n)...)
+	}
+	j.n = n
 	j.f.WriteAt(b, 0)
-	j.f.Truncate(int64(len(b)))
+	j.open = true
 }
 
 func (j *journal) end() {
-	if j.f != nil {
+	j.open = false
+}
+
+// close empties the journal when the test function returns normally.
+func (j *journal) close() {
+	if j.f != nil && !j.open {
 		j.f.Truncate(0)
 	}
 }
